@@ -297,6 +297,9 @@ class ReleaseMonitor:
                 self.after[n["id"]] = {c["id"] for c in world["nodes"]
                                        if c["kind"] == "call" and n["id"] in ds[c["id"]] and c["id"] in needed}
         self.started = set()
+        self.failed = set()
+        self.pending_failed = {}
+        self.candidates = []
         self.finished = set()
         self.last_ended = {}   # tid -> nid
         self.violation = None
@@ -306,14 +309,27 @@ class ReleaseMonitor:
     def on_call_end_hint(self, tid, nid):
         self.last_ended[tid] = nid
 
-    def on_completed(self, scope):
+    def on_completed(self, scope, failed=False):
         if not (scope and isinstance(scope[-1], str) and scope[-1].startswith("model.build.")):
             return
         tid = self.sim.current.tid
         nid = self.last_ended.pop(tid, None)
+        if failed:
+            # the failing call is still unwinding (its frames are alive inside the except block): it has
+            # finished only once this worker moves on to its next node
+            if nid is not None:
+                self.pending_failed[tid] = nid
+            return
         if nid is not None:
             self.finished.add(nid)
         self.check("completed")
+
+    def on_worker_moves_on(self):
+        tid = self.sim.current.tid
+        nid = self.pending_failed.pop(tid, None)
+        if nid is not None:
+            self.finished.add(nid)
+            self.failed.add(nid)
 
     def check(self, where):
         if self.violation is not None:
@@ -330,13 +346,28 @@ class ReleaseMonitor:
             if w() is not None:
                 gc.collect()
             if w() is not None:
-                self.violation = O.V(
+                v = O.V(
                     "result-retained",
                     f"result of call {p} is still alive at a {where} boundary although all its consumers "
                     f"{sorted(final)} have finished and it is not part of the output",
                 )
+                if final & self.failed:
+                    # the exception kept for re-raising legitimately holds the failed call's frames (and
+                    # arguments); decided at the end, when we know which failure run() kept
+                    if not any(c[0] == p for c in self.candidates):
+                        self.candidates.append((p, set(final & self.failed), v))
+                    continue
+                self.violation = v
                 return
             self.dead_seen += 1
+
+    def conclude(self, retained_call):
+        if self.violation is None:
+            for p, failed, v in self.candidates:
+                if retained_call not in failed:
+                    v["msg"] += f" (failed consumers {sorted(failed)}; the failure kept by run is call {retained_call})"
+                    self.violation = v
+                    break
 
 
 class ReleaseObserver(RecordingObserver):
@@ -344,16 +375,44 @@ class ReleaseObserver(RecordingObserver):
         super().__init__("obs0")
         self.monitor = monitor
 
+    def increment_running(self, *, section, scope):
+        if section == "run":
+            self.monitor.on_worker_moves_on()
+        super().increment_running(section=section, scope=scope)
+
     def increment_completed(self, *, section, scope):
         super().increment_completed(section=section, scope=scope)
         if section == "run":
             self.monitor.on_completed(scope)
+
+    def increment_failed(self, *, section, scope, exception):
+        super().increment_failed(section=section, scope=scope, exception=exception)
+        del exception
+        if section == "run":
+            self.monitor.on_completed(scope, failed=True)
 
 
 def gen_c16(seed, tier):
     desc, rng = base_desc(seed, tier, p_nested=0.35, p_unpack=0.12, p_gather=0.1, p_const=0.05,
                           out_modes=("node", "node", "struct"))
     desc["ops"][0]["cfg"].update(max_errors=0, retry=None)
+    if seed % 3 == 0:
+        # failing consumers: a failed consumer has finished, too
+        op = desc["ops"][0]
+        world = desc["world"]
+        consumers = [n["id"] for n in world["nodes"] if n["kind"] == "call" and ref.arg_preds(n)]
+        calls = {}
+        for c in consumers:
+            if rng.random() < 0.6:
+                calls[str(c)] = dict(exc=rng.choice(["E1", "E2"]))
+        op["faults"] = dict(calls=calls)
+        op["cfg"].update(max_errors=None, no_keep_exc=True, max_workers=rng.choice([1, 2, 3]))
+        # make everything needed, so that the failing consumers do run
+        # (a final call that merely depends on all of them, without consuming - and so retaining - any value)
+        fid = max(n["id"] for n in world["nodes"]) + 1
+        world["nodes"].append(dict(id=fid, kind="call", args=[], kwargs=[], scope=[], dur=0.0, ret="val", fname="f",
+                                   deps=[n["id"] for n in world["nodes"] if n["kind"] in ("call", "gather")], depth=0))
+        world["output"] = ["n", fid]
     return desc
 
 
@@ -375,6 +434,8 @@ def exec_c16(prop, desc):
     rec = machine.run_op(hist, desc["ops"][0], 0, tape=tapes.get("0"), sim_hook=hook)
     mon = holder["mon"]
     viol = []
+    who = O.identify_error_call(rec) if rec.exc is not None else None
+    mon.conclude(who[1] if who and who[0] == "node" else None)
     if mon.violation is not None:
         viol.append(mon.violation)
     viol.extend(O.o_term(rec, desc["world"], hist)[:1])
@@ -730,8 +791,19 @@ def gen_c06(seed, tier):  # noqa: F811
 
 def gen_c07(seed, tier):  # noqa: F811
     if seed % 4 == 1:
-        return _registry_fault_desc(seed, tier, "c07r")
-    return _gen_c07_plain(seed, tier)
+        desc = _registry_fault_desc(seed, tier, "c07r")
+    else:
+        desc = _gen_c07_plain(seed, tier)
+    if seed % 7 == 0 and not desc.get("cyclic"):
+        # resource failure while the pool starts: Thread.start raises for the k-th thread
+        rng = worldgen.child_rng(seed, "c07t")
+        op = desc["ops"][0]
+        op["cfg"]["max_workers"] = rng.choice([2, 3, 4, 6])
+        op.setdefault("faults", {})["thread_start_fail"] = rng.randrange(1, op["cfg"]["max_workers"] + 2)
+        for n in desc["world"]["nodes"]:
+            if n["kind"] == "call" and rng.random() < 0.5:
+                n["dur"] = rng.choice([1.0, 5.0])
+    return desc
 
 
 GEN["C06"] = gen_c06
